@@ -39,6 +39,7 @@ SIZE_CLASSES = {
     # value CONTENTS that look like file structure: zero bytes (= empty blocks with empty keys) and a
     # run of well-formed little blocks; whatever is left of such a value behind a too-short cut or an
     # overwrite parses as records
+    "k0v0": (0, 0),  # its block is five zero bytes
     "k1v40z": (1, 40, "zeros"),
     "k2v42b": (2, 42, "blocks"),
 }
@@ -59,6 +60,9 @@ def mk_kv(cls: str, pos: int, seed: int):
 
 
 F0_VARIANTS = ["hdr", "1rec", "2rec", "custom1"]
+# further pre-states used by dedicated cases: "zrec" = a committed record with empty key AND empty value (an
+# all-zero block) between two others; "pad<N>" = one record with an N-byte value followed by three small
+# ones, so that block headers fall on every offset relative to the reader's buffer windows
 
 
 def make_f0(variant: str, path: Path):
@@ -69,6 +73,15 @@ def make_f0(variant: str, path: Path):
     if variant == "custom1":
         kw = dict(h1=b"ML10Library", h2=b"comment", b0=b"\x01\x02\x03")
     with UKVFile(path, mode="x", **kw) as f:
+        if variant == "zrec":
+            for k, v in ((b"c1", b"committed-one"), (b"", b""), (b"c3", b"three")):
+                f.put(k, v)
+                committed[k] = v
+        if variant.startswith("pad"):
+            n = int(variant[3:])
+            for k, v in ((b"pad", bytes(range(1, 256)) * (n // 255) + bytes(range(1, 1 + n % 255))), (b"s1", b"one"), (b"s2", b""), (b"s3", b"three")):
+                f.put(k, v)
+                committed[k] = v
         if variant in ("1rec", "2rec", "custom1"):
             f.put(b"c1", b"committed-one")
             committed[b"c1"] = b"committed-one"
@@ -218,7 +231,7 @@ class Rec:
             _forget(c)
 
     # ---- recovery histories ----------------------------------------------------------------
-    def recover_all(self, img: bytes, committed, session, cutc, case, depth2: bool, coll: bool, f0: bytes = None):
+    def recover_all(self, img: bytes, committed, session, cutc, case, depth2: bool, coll: bool, f0: bytes = None, light: bool = False):
         ctx = self.ctx
         n = 0
         # R1: reopen read-only, full read
@@ -249,6 +262,8 @@ class Rec:
             recs, _, clean = parse_ukv(after)
             if not clean:
                 self.viol("R2[ukv-a+put+r]", "file-not-wellformed-after-append", cutc, "after recovery+append the file does not parse as header|records to its end", case)
+        if light:
+            return n
         # R2t: the recovery append is the smallest possible record (shorter than any torn tail)
         self.path.write_bytes(img)
 
@@ -481,6 +496,18 @@ def case_list(ctx):
                 cases.append((f0v, (cls,), via, via == "ukv"))
             cases.append((f0v, (cls, "k1v1"), "ukv", False))
             cases.append((f0v, ("k1v1", cls), "coll:1000000", False))
+    for spec, via in ((("k1v1",), "ukv"), (("k1v1", "k3v8"), "coll:4"), (("k1v1",), "coll:1000000")):
+        cases.append(("zrec", spec, via, via == "ukv"))
+    # alignment of block headers with the reader's buffer windows (st_blksize / 8 KiB multiples): the pad
+    # record shifts everything behind it by one byte per case; light = 3 crash points x (R1, R1[coll], R2)
+    if ctx.thorough:
+        pads = range(0, 12400)
+    else:
+        pads = sorted(set(list(range(0, 40)) + [n for k in (1, 2, 3) for n in range(4096 * k - 120, 4096 * k + 24)] + list(range(300, 12400, 257))))
+    for n in pads:
+        cases.append((f"pad{n}", ("k1v1",), "ukv", "light"))
+    for spec, via in ((("k0v0",), "ukv"), (("k0v0", "k1v1"), "ukv"), (("k1v1", "k0v0", "k1v1"), "coll:4")):
+        cases.append(("1rec", spec, via, via == "ukv" and len(spec) == 1))
     # deterministic rotation by the seed (order only)
     r = ctx.seed % len(cases)
     return cases[r:] + cases[:r]
@@ -515,10 +542,15 @@ def run_case(ctx, case):
     rec = Rec(ctx, d / "rec")
     nimg = 0
     stride = None if ctx.thorough else 4096
+    light = depth2 == "light"
+    if light:
+        depth2 = False
     for img, pt in crashx.images(f0, ops, stride_above=stride):
+        if light and len(img) - len(f0) not in (0, 2, len(final) - len(f0)):
+            continue
         cutc = cut_class(final, len(f0), len(img), pt, ops)
-        cdesc = {"f0": f0v, "spec": list(spec), "via": via, "crash_point": list(pt), "depth2": depth2}
-        n = rec.recover_all(img, committed, session, cutc, cdesc, depth2, coll=(len(final) < 2000), f0=f0)
+        cdesc = {"f0": f0v, "spec": list(spec), "via": via, "crash_point": list(pt), "depth2": depth2, "light": light}
+        n = rec.recover_all(img, committed, session, cutc, cdesc, depth2, coll=(len(final) < 2000) or light, f0=f0, light=light)
         ctx.count(evaluations=n, transitions=n, traces=n, states=1)
         nimg += 1
         if 0 < len(img) - len(f0) < len(final) - len(f0):
@@ -567,4 +599,4 @@ def replay(ctx, case):
     pt = tuple(case["crash_point"])
     img = crashx.apply_ops(f0, ops, pt[0], pt[1])
     rec = Rec(ctx, d / "rec")
-    rec.recover_all(img, committed, dict(puts), cut_class(final, len(f0), len(img), pt, ops), case, case.get("depth2", False), coll=True, f0=f0)
+    rec.recover_all(img, committed, dict(puts), cut_class(final, len(f0), len(img), pt, ops), case, case.get("depth2", False), coll=True, f0=f0, light=bool(case.get("light")))
